@@ -14,7 +14,7 @@
    operators that proofs need are at the end. *)
 From Coq Require Import ZArith NArith String Bool List.
 Import ListNotations.
-From TP Require Import Base.PyVal Base.PyOps Base.PyOps2 Base.PyObj.
+From TP Require Import Base.PyVal Base.PyEq Base.PyOps Base.PyOps2 Base.PyObj.
 Local Open Scope Z_scope.
 
 (* ------------------------------------------------------------------ classes *)
@@ -61,15 +61,57 @@ Definition fld_class_of (o : pyval) : res pyval :=
   | _ => Raise Unmodelled
   end.
 
-(* a is K / a is not K, for a class K: classes are identified by their names; a class is never
-   identical to a piece of plain data *)
+(* a is K / a is not K, for a class K: classes are identified by their names; neither a piece of plain data nor
+   an instance / an enum member is a class object *)
 Definition py_is_class (a b : pyval) : res bool :=
   match a, b with
   | POther t1 n1, POther t2 n2 =>
-      if pystr_eqb t1 ref_tag && pystr_eqb t2 ref_tag then Ok (pystr_eqb n1 n2) else Raise Unmodelled
-  | (PStruct _ _ | PEnum _ _ _ | POther _ _), _ => Raise Unmodelled
+      (* class objects are always references: an opaque object that is not a reference is not a class *)
+      if pystr_eqb t2 ref_tag then Ok (pystr_eqb t1 ref_tag && pystr_eqb n1 n2) else Raise Unmodelled
   | _, POther t2 _ => if pystr_eqb t2 ref_tag then Ok false else Raise Unmodelled
   | _, _ => Raise Unmodelled
+  end.
+
+(* a is M / a is not M, for a member M of an enum class: members are singletons identified by class and name *)
+Definition py_is_member (a m : pyval) : res bool :=
+  match m with
+  | PEnum c n _ =>
+      match a with
+      | PEnum c' n' _ => Ok (pystr_eqb c c' && pystr_eqb n n')
+      | POther _ _ => Raise Unmodelled
+      | _ => Ok false
+      end
+  | _ => Raise Unmodelled
+  end.
+
+(* getattr(o, k, d) with a run-time attribute name *)
+Definition fld_getattr_dyn_def (h : heap) (o k d : pyval) : res pyval :=
+  match k with
+  | PStr a => fld_getattr_def h o a d
+  | POther _ _ | PStruct _ _ | PEnum _ _ _ => Raise Unmodelled
+  | _ => Raise TypeError
+  end.
+
+(* issubclass(c, K) for a class object c: the heap lists the classes of its mro under "__mro__" *)
+Definition cls_issubclass (h : heap) (c : pyval) (k : pystr) : res bool :=
+  match c with
+  | POther t n =>
+      if pystr_eqb t ref_tag then
+        match h n (s2p "__mro__") with
+        | Some (PList l) => Ok (py_in (ref k) l)
+        | _ => Raise Unmodelled
+        end
+      else Raise Unmodelled
+  | PStruct _ _ | PEnum _ _ _ => Raise Unmodelled
+  | _ => Raise TypeError
+  end.
+
+(* isinstance(v, collections.abc.Mapping): among the model's kinds of data only a dict *)
+Definition py_is_mapping (v : pyval) : res bool :=
+  match v with
+  | PDict _ => Ok true
+  | POther _ _ | PStruct _ _ => Raise Unmodelled
+  | _ => Ok false
   end.
 
 (* ------------------------------------------------------------------ dicts, iteration, subscription *)
@@ -152,6 +194,54 @@ Definition py_dict_merge (a b : pyval) : res pyval :=
   | PDict ka, PDict kb => Ok (PDict (fold_left (fun acc p => dict_set acc (fst p) (snd p)) kb ka))
   | (POther _ _ | PStruct _ _ | PEnum _ _ _), _ | _, (POther _ _ | PStruct _ _ | PEnum _ _ _) => Raise Unmodelled
   | _, _ => Raise TypeError
+  end.
+
+(* d.get(k[, default]) *)
+Definition py_dict_get_method (d k dflt : pyval) : res pyval :=
+  match d with
+  | PDict kv => if py_hashable' k then Ok (match dict_get kv k with Some v => v | None => dflt end) else Raise TypeError
+  | POther _ _ | PStruct _ _ | PEnum _ _ _ => Raise Unmodelled
+  | _ => Raise AttributeError
+  end.
+
+(* d[k] = v on a dict that the function itself created (no alias): the updated dict *)
+Definition py_setitem (d k v : pyval) : res pyval :=
+  match d with
+  | PDict kv => if py_hashable' k then Ok (PDict (dict_set kv k v)) else Raise TypeError
+  | PNone | PBool _ | PNum _ | PStr _ | PTuple _ | PSet _ _ => Raise TypeError
+  | _ => Raise Unmodelled
+  end.
+
+(* set(...): membership in a Python set is equal hash and ==.  Structure.__hash__ is hash(str(self)), so two
+   instances that are == but print differently (a = 7 / a = 7.0) are distinct elements (Ser/Trusted.v elem_eq) *)
+Definition set_elem_eq (x y : pyval) : bool :=
+  py_eq x y && match x with PStruct _ _ => PyEq.pyval_eqb x y | _ => true end.
+Fixpoint set_dedup_from (seen l : list pyval) : list pyval :=
+  match l with
+  | [] => rev seen
+  | x :: t => if existsb (set_elem_eq x) seen then set_dedup_from seen t else set_dedup_from (x :: seen) t
+  end.
+Definition py_set_of (l : list pyval) : res pyval :=
+  if forallb py_hashable' l then Ok (PSet false (set_dedup_from [] l)) else Raise TypeError.
+(* set(v) *)
+Definition py_set_call (v : pyval) : res pyval := l <- py_iter v ;; py_set_of l.
+
+(* obj = C.__new__(C); setattr(obj, FLAG, True); obj.__init__( **kwargs ): with FLAG = _trust_supplied_values the
+   constructor stores the keyword arguments as the instance's attributes, unchanged and unvalidated
+   (Structure.__init__, trusted branch: Props/C10.v C10_from_trusted); any other flag is outside the model *)
+Fixpoint kwargs_alist (kv : list (pyval * pyval)) : option (list (pystr * pyval)) :=
+  match kv with
+  | [] => Some []
+  | (PStr k, v) :: t => match kwargs_alist t with Some r => Some ((k, v) :: r) | None => None end
+  | _ => None
+  end.
+Definition py_trusted_instance (c : pyval) (flag : pystr) (kwargs : pyval) : res pyval :=
+  match c, kwargs with
+  | POther t n, PDict kv =>
+      if pystr_eqb t ref_tag && pystr_eqb flag (s2p "_trust_supplied_values") then
+        match kwargs_alist kv with Some a => Ok (PStruct n a) | None => Raise TypeError end   (* keywords must be strings *)
+      else Raise Unmodelled
+  | _, _ => Raise Unmodelled
   end.
 
 (* x and y / x or y as VALUES: the operand that decides *)
